@@ -410,6 +410,16 @@ class SymExec:
                 if kind == "const_elem":
                     return opaque("elt", [Poly.atom(b.name), Poly.const(lv[2])])
                 return Ref(lv[1], lv[2], unit=lv[3])
+            if isinstance(b, Poly) and isinstance(lv[2], int):
+                # a literal array held in a local, indexed by a constant: that element
+                bd = DEFS.get(b.single_atom()) if b.single_atom() else None
+                for _ in range(3):
+                    if bd and bd[0] in ("unwrap", "as_ref", "deref", "addr") and bd[1] and isinstance(bd[1][0], Poly) and bd[1][0].single_atom():
+                        bd = DEFS.get(bd[1][0].single_atom())
+                    else:
+                        break
+                if bd and bd[0] == "array" and 0 <= lv[2] < len(bd[1]) and isinstance(bd[1][lv[2]], Poly):
+                    return bd[1][lv[2]]
             return opaque("idx", [as_poly(b) if isinstance(b, Poly) else Poly.atom(str(b)), Poly.const(lv[2])])
         return self.fresh("unk")
 
@@ -579,6 +589,9 @@ class SymExec:
                 return Ref(lv[1], None, e.get("mut", False))
         if lv[0] == "slice":
             return Ref(lv[1], lv[2], e.get("mut", False), lv[3])
+        if lv[0] == "elem" and e.get("mut", False):
+            # `&mut buf[k*n + i]` handed to a helper: a reference to that element (writes through it reach the buffer)
+            return Ref(lv[1], lv[2], True, lv[3], True)
         v = self.eval(inner)
         return v
 
@@ -595,6 +608,17 @@ class SymExec:
             return self.read_lv(lv, e)
         b = self.eval(e["e"])
         i = self.eval(e["i"]) if self.range_of(e["i"]) is None else Poly.atom("range")
+        # a literal array / tuple indexed by a constant is that element (`let w = [a, b, c]; w[1]`)
+        ba = b.single_atom() if isinstance(b, Poly) else None
+        bd = DEFS.get(ba) if ba else None
+        for _ in range(3):
+            if bd and bd[0] in ("unwrap", "as_ref", "deref", "addr") and bd[1] and isinstance(bd[1][0], Poly) and bd[1][0].single_atom():
+                bd = DEFS.get(bd[1][0].single_atom())
+            else:
+                break
+        ic = i.const_value() if isinstance(i, Poly) else None
+        if bd and bd[0] == "array" and ic is not None and ic.denominator == 1 and 0 <= int(ic) < len(bd[1]) and isinstance(bd[1][int(ic)], Poly):
+            return bd[1][int(ic)]
         return opaque("idx", [self._p(b), self._p(i)])
 
     def e_Assign(self, e):
@@ -2008,6 +2032,15 @@ class SymExec:
                 pass
             self.st = snap[0]
             del self.trace[snap[1]:]
+        if name in ("then", "then_some") and len(e["args"]) == 1 and (e["recv"].get("ty") or "") == "bool" and (name == "then_some" or (e["args"][0].get("k") == "Closure" and not (e["args"][0].get("params") or []))):
+            # `cond.then(|| v)` / `cond.then_some(v)` is `if cond { Some(v) } else { None }` (then_some evaluates v first: pure here)
+            if "_then_if" not in e:
+                inner = e["args"][0]["body"] if name == "then" else e["args"][0]
+                some = {"k": "Call", "res": "def", "dk": "Ctor", "def": "std::prelude::v1::Some", "f": {"k": "Path", "res": "def", "dk": "Ctor", "def": "std::prelude::v1::Some"},
+                        "args": [inner], "ty": e.get("ty"), "sp": e.get("sp")}
+                none = {"k": "Path", "res": "def", "dk": "Ctor", "def": "std::prelude::v1::None", "ty": e.get("ty"), "sp": e.get("sp")}
+                e["_then_if"] = {"k": "If", "cond": recv, "then": some, "else": none, "ty": e.get("ty"), "sp": e.get("sp"), "_of_id": id(e)}
+            return self.e_If(e["_then_if"])
         if name in ("map_or", "is_some_and", "map_or_else") and e["args"] and e["args"][-1].get("k") == "Closure" and "Option" in (e["recv"].get("ty") or ""):
             # Option::map_or(default, |v| ..): the closure sees the payload; result = default (None) or the closure value (Some)
             cl = e["args"][-1]
@@ -2024,6 +2057,16 @@ class SymExec:
                 pass
             self.st = snap[0]
             del self.trace[snap[1]:]
+        if name in ("split_at_mut", "chunks_mut", "chunks_exact_mut", "split_first_mut", "split_last_mut", "rchunks_mut", "as_mut_ptr", "swap_with_slice", "rotate_left", "rotate_right", "reverse", "sort_by", "sort_unstable_by"):
+            # mutable views of a tracked buffer that the block model does not follow: what is written through them is unknown
+            try:
+                lvb = self.lvalue(recv)
+            except Exception:
+                lvb = None
+            if lvb and lvb[0] in ("key", "slice") and isinstance(self.st.get(lvb[1]), Buf):
+                old_b = self.st[lvb[1]]
+                self.st[lvb[1]] = Buf(fresh("%s~view" % old_b.name).single_atom(), {}, old_b.len, old_b.unit, None)
+                self.imprecise.append(("mutable-view-%s" % name, e))
         if name in ("unwrap", "expect") and e["recv"].get("ty", "").startswith(("std::option::Option", "std::result::Result", "&std::option::Option")):
             v = self.eval(recv)
             self.log("unwrap", node=e, recv=self._p(v), facts=self.path_facts())
